@@ -754,7 +754,9 @@ class HttpRequestParser(HttpParser[RawRequestMessage]):
             # yarl splits host and port lazily: force it now so that a
             # malformed authority is a client error, not a later ValueError.
             url.host
-        except ValueError as exc:
+        except (ValueError, IndexError) as exc:
+            # yarl raises IndexError for an authority with an empty host
+            # after a bracketed userinfo (``http://[::1]@/``).
             raise InvalidURLError(
                 path.encode(errors="surrogateescape").decode("latin1")
             ) from exc
